@@ -618,6 +618,8 @@ def fam_reject_matrix(rng, n, prefix):
         if pos == "first":
             # before anything is accepted: use the generic (first-frame) forms
             first_bad = rng.choice([["wv", fb(0.5), hx(video_delta(rng, codec)), 0],       # not a keyframe
+                                    ["wv", fb(0.5), hx(video_key(rng, codec)), 0],         # carries its own (different) configuration but is not flagged key
+                                    ["wvd", fb(0.5), fb(0.25), hx(video_key(rng, codec)), 0],
                                     ["wv", fb(0.5), hx(rng.bytes(9)), 1],                   # no config
                                     ["wa", fb(0.5), hx(audio_frame(rng, "aac-lc"))],        # audio before video
                                     ["wv", fb(0.5), "-", 1]])
@@ -863,6 +865,67 @@ def fam_ctimes(rng, n, prefix):
             c.b("meta", hx(b"t") if rng.chance(1, 2) else "~", "%x" % t, "~")
         c.o("wv", fb(0.0), hx(video_key(rng, cfg["codec"])), 1)
         c.o("fin", rng.choice([0, 1, 3]))
+        out.append(c)
+    return out
+
+
+# ---------- timestamps between ticks (C03/C04/C16): rounding of pts and dts separately ----------
+def fam_subtick(rng, n, prefix):
+    """explicit-dts video whose pts and dts fall at arbitrary fractions of a 90 kHz tick (fractions on either
+    side of one half), so that round(pts) - round(dts) differs from round(pts - dts); audio likewise"""
+    out = []
+    fr = [0.0, 0.1, 0.25, 0.4, 0.49, 0.5, 0.51, 0.6, 0.75, 0.9, 0.99]
+    for i in range(n):
+        cfg = rand_cfg(rng, audio=rng.choice(["none", "aac-lc", "opus"]), dims=(640, 480), meta=0)
+        codec = cfg["codec"]
+        c = Case("%s%d" % (prefix, i), "mux")
+        emit_cfg(c, cfg, rng)
+        d = rng.choice([0, 3000, 90000])
+        ops = []
+        for k in range(rng.range(2, 6)):
+            dd = d + rng.choice(fr)
+            off = rng.choice([0, 3000, 6000, 2999, 1]) if rng.chance(3, 4) else 0
+            pp = d + off + rng.choice(fr)
+            if pp < dd and off == 0:
+                pp = dd
+            ops.append((dd, 0, ["wvd", fb(pp / 90000.0), fb(dd / 90000.0),
+                                hx(video_key(rng, codec) if k == 0 else video_delta(rng, codec)), 1 if k == 0 else 0]))
+            d += rng.choice([3000, 3003, 1500, 1])
+        if has_audio(cfg):
+            t = ops[0][0] + 9000
+            for k in range(rng.range(1, 4)):
+                ops.append((t + 0.0, 1, ["wa", fb((t + rng.choice(fr)) / 90000.0), hx(audio_frame(rng, cfg["audio"]))]))
+                t += rng.choice([1920, 960, 1])
+        ops.sort(key=lambda x: (x[0], x[1]))
+        for _, _, o in ops:
+            c.o(*o)
+        c.o("fin", 0)
+        out.append(c)
+    return out
+
+
+# ---------- audio against the first video presentation time when later frames are presented earlier (C04) ----------
+def fam_audio_vs_first_video(rng, n, prefix):
+    out = []
+    for i in range(n):
+        cfg = rand_cfg(rng, audio=rng.choice(["aac-lc", "opus"]), dims=(640, 480), meta=0)
+        codec = cfg["codec"]
+        c = Case("%s%d" % (prefix, i), "mux")
+        emit_cfg(c, cfg, rng)
+        p0 = rng.choice([0.2, 0.5, 1.0])
+        c.o("wvd", fb(p0), fb(0.0), hx(video_key(rng, codec)), 1)
+        later = []
+        for k in range(rng.range(1, 4)):
+            later.append(round(p0 * rng.choice([0.25, 0.5, 0.75, 1.5]), 6))
+        d = 0.0
+        for pt in later:
+            d += 0.01
+            c.o("wvd", fb(max(pt, d) if pt >= d else pt + d), fb(d), hx(video_delta(rng, codec)), 0)
+        t = 0.0
+        for k in range(rng.range(2, 6)):
+            t = max(t, rng.choice([p0 * 0.3, p0 * 0.6, p0 * 0.9, p0, p0 * 1.1, p0 + 0.5]))
+            c.o("wa", fb(t), hx(audio_frame(rng, cfg["audio"])))
+        c.o("fin", 0)
         out.append(c)
     return out
 
